@@ -181,7 +181,8 @@ def L_MINI():
 
 GOPS = ['regenerate_graph', 'attach_attackers', 'remove_node(n)', 'compromise(n)', 'add_node()', 'remove_attacker(0)',
         'calculate+prune', 'model: add asset + regenerate', 'model: set defense + regenerate',
-        'model: remove last asset + regenerate']
+        'model: remove last asset + regenerate', 'save+load json WITHOUT the model and continue on the loaded graph',
+        'save+load yml with the model and continue on the loaded graph']
 
 
 def body_gen(cube, **kw):
@@ -211,7 +212,25 @@ def body_gen(cube, **kw):
             return 'generated graph: ' + r
         for s in range(k):
             o, ni = ops[s], nis[s]
-            if o == 0 or o == 7 or o == 8 or o == 9:
+            if o in (0, 7, 8, 9) and g.lang_graph is None:
+                pass                        # a loaded graph has no language graph to regenerate from
+            elif o == 1 and g.model is None:
+                pass
+            elif o == 10 or o == 11:
+                _CNT[0] += 1
+                path = os.path.join(os.getcwd(), 'c09g_%d_%d.%s' % (os.getpid(), _CNT[0], 'json' if o == 10 else 'yml'))
+                g.save_to_file(path)
+                try:
+                    l = AttackGraph.load_from_file(path, model=None if o == 10 else m)
+                finally:
+                    try:
+                        os.remove(path)
+                    except OSError:
+                        pass
+                if sorted(n.id for n in l.nodes) != sorted(n.id for n in g.nodes):
+                    return 'step %d: loaded graph has different node ids' % s
+                g = l
+            elif o == 0 or o == 7 or o == 8 or o == 9:
                 if o == 9 and len(m.assets) > 1:
                     m.remove_asset(m.assets[-1])
                 if o == 7:
